@@ -433,6 +433,47 @@ example : smtpSees (proxyHop (fun _ c => if c = .perm then 550 else 450) {} { rc
 
 end proxyhop
 
+/-! ## HttpRelay → WsgiEdge → Queue (C11 ∘ C02): the hop between two hosts that speak HTTP -/
+section httphop
+open Slimta.Ingress Slimta.Relay
+
+/-- **Delivered over HTTP means in custody on the other side**: for every vector of write outcomes on the receiving host, if the
+    HTTP relay on the sending host reports the message delivered (to anybody), every envelope of it was written there. -/
+theorem http_hop_delivered_means_custody (n : Nat) (ws : List Write) (hw : WriteErrCodes ws) (l : List Cls)
+    (h : httpHop n ws = .table l) : ∀ w ∈ ws, w = .ok := by
+  obtain ⟨st, hdr, ho, hst⟩ := C11.http_delivered_only_on_2xx n _ l h
+  apply queue_ack_means_all_written ws hw
+  right
+  cases he : enqueue ws with
+  | none => simp [wsgiResponse, he] at ho; omega
+  | some rs =>
+    simp only [wsgiResponse, he, HttpOut.response.injEq] at ho
+    simp only [wsgiSees, ho.1, hst]
+
+/-- **The class of a failure survives the hop**: a write that fails with a `QueueError` makes the sending relay raise the class of
+    the reply the edge chose (4xx: transient — the message is retried, not bounced; 5xx: permanent), and an exception on the
+    receiving host (a bare 500) is a transient failure. -/
+theorem http_hop_failure_class (n : Nat) (ws : List Write) (hw : WriteErrCodes ws) :
+    (∀ rs r, enqueue ws = some rs → firstError rs = some r → httpHop n ws = .raised (factory (replyCode (some r)))) ∧
+    (enqueue ws = none → httpHop n ws = .raised .temp) := by
+  constructor
+  · intro rs r he hf
+    have hc := enqueue_errcodes ws rs hw he
+    have hcode := replyCode_error hc hf
+    simp only [httpHop, wsgiResponse, he, httpAttempt, wsgiStatus, smtpReply, hf]
+    have hne : ¬ (httpStatus (replyCode (some r)) / 100 = 2) := by
+      rw [httpStatus_class]
+      rcases hcode with h | h <;> omega
+    simp [hne]
+  · intro he
+    simp [httpHop, wsgiResponse, he, httpAttempt]
+
+example : httpHop 2 [.ok, .queueError (some 452)] = .raised .temp ∧ httpHop 2 [.ok, .queueError (some 552)] = .raised .perm ∧
+    httpHop 2 [.ok, .queueError none] = .raised .temp ∧ httpHop 2 [.ok, .otherExc] = .raised .temp ∧
+    httpHop 2 [.ok, .ok] = .table [.ok, .ok] := by decide
+
+end httphop
+
 /-! Non-vacuity -/
 example : smtpReply [.id, .queueError none, .id] = 451 ∧ wsgiStatus [.id, .queueError (some 552)] = 500 ∧
     smtpReply [.id, .id] = 250 := by decide
